@@ -141,6 +141,17 @@ func checkCase(c Case) evid.Outcome {
 		if ferr == nil {
 			return evid.Fail("accepted-invalid:"+why, "registration %s %q must be rejected (%s) after %s but Flame accepted it", c.Final.M, c.Final.R, why, show(c.Prefix))
 		}
+		// what is refused once is refused again (a program may recover from the
+		// first panic and try the same registration later)
+		var ferr2 interface{}
+		if c.Via == "routes" {
+			ferr2 = app.RegisterRoutes(len(c.Prefix), c.Final)
+		} else {
+			ferr2 = app.Register(len(c.Prefix), c.Final)
+		}
+		if ferr2 == nil {
+			return evid.Fail("accepted-invalid-second-time:"+why, "registration %s %q (%s) panicked the first time (%v) and was accepted when repeated; history %s", c.Final.M, c.Final.R, why, ferr, show(c.Prefix))
+		}
 	case model.MustAccept:
 		if ferr != nil {
 			return evid.Fail("rejected-valid:"+classify(ferr), "registration %s %q is well-formed after %s but Flame panicked: %v", c.Final.M, c.Final.R, show(c.Prefix), ferr)
